@@ -108,6 +108,25 @@ claim('C16',
       'explicit-state exploration of solver-call sequences + full configuration product against the default run',
       'DESIGN.md#c16')
 
+claim('C17',
+      'Fault catalogue executed against the real routines. Power flow: 23 ill-posed / borderline inputs on a 3/4-bus '
+      'network (load ladder across the loadability limit, 100x overload, island without slack, slack off, zero impedance, '
+      'tap = 0, NaN / inf parameters, negative reactance, iteration limit 1) x Newton variant (NR, dishonest, NK) x routine '
+      'sequence (pflow | +tds | +eig | +tds+eig) and the CLI entry point. Oracle: True implies finite state, the routine\'s '
+      'residual test recomputed passes and the power balance of the reported voltages holds in the independent network '
+      'model; ill-posed inputs must give False, non-zero exit code, and TDS / EIG must return False without raising. '
+      'Time domain: 9 dynamic faults on kundur_full (violated limiter at initialisation, 1.5 s fault, machine trip, all '
+      'lines tripped, inconsistent ratings, forced rejection with fixed step and shrinkt = 0) and one NaN answer of the '
+      'linear solver injected at each of the first 10 solves for two integration methods. Files: every token-boundary '
+      'prefix of a json case, 8 truncations of an xlsx case, empty, wrong extension, missing - through andes.load and '
+      'the CLI entry point.',
+      'Rejecting bad data while loading (exception or None) counts as reported failure; a routine run() that raises '
+      'instead of returning its flag is a violation. Inputs the models document a default / regularisation for may '
+      'succeed if the result is truthful. PQ voltage-band conversion to impedance is switched off for the catalogue.',
+      'exhaustive fault-catalogue enumeration x routine sequences on the implementation with single-fault injection at '
+      'every solver call below K',
+      'DESIGN.md#c17')
+
 claim('C18',
       'All 23 linear block classes (gain, integrator, lag family incl. freeze / anti-windup / rate variants, washout, '
       'washout-or-lag, 2nd-order lag and lead-lag, lead-lag (+limit), PI / PID family incl. anti-windup, tracking and freeze '
